@@ -455,3 +455,168 @@ def factory_check(tier, seed):
 
 
 CHECKS["factory"] = factory_check
+
+
+def declarations_check(tier, seed):
+    """a malformed declaration / definition command (a stray token where it must close, cut short, ill-sorted body) is rejected
+    and leaves nothing behind: the environment has no new symbol (names invented for parameters aside) and the same parser
+    reads a following well-formed script - which uses the name with another sort - exactly as a new parser in a new environment"""
+    from io import StringIO
+    from native.bounded import fresh_env
+    from pysmt.smtlib.parser import SmtLibParser
+    bad = ["(declare-const k Int oops)", "(declare-const k Int", "(declare-const k (Array Int Int) ())",
+           "(declare-fun k () Int oops)", "(declare-fun k (Int) Int oops)", "(declare-fun k () Int", "(declare-fun k (Int Bool) Int (",
+           "(define-fun k () Int 1 oops)", "(define-fun k () Int true)", "(define-fun k ((a Int)) Int (+ a 1) a)",
+           "(declare-sort K 0 oops)", "(define-sort K () Int oops)"]
+    good = ["(declare-fun k () Real)\n(assert (< k 1.5))\n", "(declare-const k Bool)\n(assert (not k))\n",
+            "(define-fun k ((a Real)) Bool (< a 2.0))\n(assert (k 1.0))\n",
+            "(declare-sort K 1)\n(declare-fun s () (K Int))\n(declare-fun t () (K Int))\n(assert (= s t))\n"]
+    viol, samples = [], []
+    n = 0
+    with warnings.catch_warnings():
+        warnings.simplefilter("ignore")
+        for b in bad:
+            for pre in ("", "(declare-fun other () Int)\n(assert (< other 3))\n"):
+                for g in good:
+                    env = fresh_env()
+                    p = SmtLibParser(env)
+                    if pre:
+                        p.get_script(StringIO(pre))
+                    before = set(env.formula_manager.symbols)
+                    n += 1
+                    try:
+                        p.get_script(StringIO(pre + b))
+                        viol.append({"key": "malformed-command-accepted", "script": pre + b})
+                        break
+                    except Exception as e:
+                        err = type(e).__name__
+                    left = sorted(s for s in set(env.formula_manager.symbols) - before if not s.startswith("__"))
+                    if left:
+                        viol.append({"key": "failed-command-left-a-symbol", "script": pre + b, "error": err, "symbols": left})
+                        break
+                    try:
+                        used = str(p.get_script(StringIO(g)).get_last_formula())
+                    except Exception as e:
+                        used = "exception: %r" % (e,)
+                    try:
+                        new = str(SmtLibParser(fresh_env()).get_script(StringIO(g)).get_last_formula())
+                    except Exception as e:
+                        new = "exception: %r" % (e,)
+                    if used != new:
+                        viol.append({"key": "later-script-reads-differently-after-a-failed-command", "failed": pre + b, "then": g,
+                                     "after_failure": used, "new_parser_new_environment": new})
+                        break
+                if viol:
+                    break
+            if viol:
+                break
+    return {"name": "declarations", "bounded": True, "evaluations": n, "distinct_nontrivial": n,
+            "rule": "%d malformed declaration / definition commands (alone and after a well-formed prefix) x %d following scripts" % (len(bad), len(good)),
+            "samples": [bad[0] + " ; then ; " + good[0]], "violations": viol}
+
+
+CHECKS["declarations"] = declarations_check
+
+
+def registration_check(tier, seed):
+    """Factory.add_generic_solver: a new name is recorded with its arguments and logics and offered for the logics it covers; a
+    second registration under a taken name is refused and changes nothing that a later call can see"""
+    from native.bounded import fresh_env
+    from pysmt.logics import QF_UFLIRA, UFLIRA, QF_LIA, QF_BV, QF_BOOL
+    from pysmt.exceptions import SolverRedefinitionError
+    viol = []
+    n = 0
+    for first, second in ((([QF_UFLIRA, UFLIRA], ["/bin/one", "-a"]), ([QF_BV], ["/bin/two"])),
+                          (([QF_BV], ["/bin/one"]), ([QF_UFLIRA], ["/bin/two", "-x", "-y"]))):
+        for cores in (False, True):
+            env = fresh_env()
+            fac = env.factory
+            n += 1
+            fac.add_generic_solver("generic-one", list(first[1]), list(first[0]), unsat_core_support=cores)
+            seen = lambda: {"info": (list(fac.get_generic_solver_info("generic-one")[0]), list(fac.get_generic_solver_info("generic-one")[1])),
+                            "is_generic": fac.is_generic_solver("generic-one"),
+                            "logics_of_class": list(fac.all_solvers()["generic-one"].LOGICS) if "generic-one" in fac.all_solvers() else None,
+                            "offered_for": [str(l) for l in (QF_LIA, QF_BV, QF_BOOL) if "generic-one" in fac.all_solvers(logic=l)],
+                            "preferences": list(fac.preferences["Solver"]),
+                            "core_preferences": list(fac.preferences.get("Solver supporting Unsat Cores", []))}
+            before = seen()
+            if before["info"] != (list(first[1]), list(first[0])) or before["logics_of_class"] != list(first[0]):
+                viol.append({"key": "registration-not-recorded-as-given", "given": [first[1], [str(l) for l in first[0]]], "seen": str(before)})
+                break
+            try:
+                fac.add_generic_solver("generic-one", list(second[1]), list(second[0]), unsat_core_support=not cores)
+                viol.append({"key": "taken-name-accepted", "name": "generic-one"})
+                break
+            except SolverRedefinitionError:
+                pass
+            after = seen()
+            if after != before:
+                viol.append({"key": "refused-registration-left-a-trace", "before": str(before), "after": str(after)})
+                break
+        if viol:
+            break
+    return {"name": "registration", "bounded": True, "evaluations": n, "distinct_nontrivial": n,
+            "rule": "2 pairs of (logics, command line) x unsat-core flag: register, then a refused second registration under the same name",
+            "samples": ["add_generic_solver('generic-one', ['/bin/one', '-a'], [QF_UFLIRA, UFLIRA]) ; then the same name again with ['/bin/two'], [QF_BV]"],
+            "violations": viol}
+
+
+CHECKS["registration"] = registration_check
+
+
+def plural_model_check(tier, seed):
+    """Model.get_values / get_py_values answer, for each formula of the list, what get_value / get_py_value answers for it with
+    the same completion flag - on total and on partial models, with and without completion (an error of the single call is
+    an error of the plural one)"""
+    from native.bounded import fresh_env
+    from pysmt.solvers.eager import EagerModel
+    env = fresh_env()
+    m = env.formula_manager
+    x, y = m.Symbol("px", INT), m.Symbol("py", INT)
+    p, b = m.Symbol("pp", BOOL), m.Symbol("pb", BVType(4))
+    forms = [x, m.Plus(x, m.Int(1)), m.Plus(x, y), y, p, m.And(p, m.Equals(x, m.Int(5))), b, m.BVAdd(b, m.BV(1, 4)), m.LT(x, y)]
+    models = [{x: m.Int(5)}, {x: m.Int(5), y: m.Int(-2)}, {}, {x: m.Int(5), y: m.Int(0), p: m.TRUE(), b: m.BV(3, 4)}]
+    viol = []
+    n = 0
+
+    def attempt(fn):
+        try:
+            return ("value", fn())
+        except Exception as e:
+            return ("error", type(e).__name__)
+    for asg in models:
+        for f in forms:
+            for g in forms[:3]:
+                for mc in (True, False):
+                    for plural, single in (("get_values", "get_value"), ("get_py_values", "get_py_value")):
+                        n += 1
+                        one = [attempt(lambda h=h: getattr(EagerModel(dict(asg), env), single)(h, model_completion=mc)) for h in (g, f)]
+                        for how in ("keyword", "positional"):
+                            mdl = EagerModel(dict(asg), env)
+                            many = attempt((lambda: getattr(mdl, plural)([g, f], model_completion=mc)) if how == "keyword"
+                                           else (lambda: getattr(mdl, plural)([g, f], mc)))
+                            if any(k == "error" for k, _ in one):
+                                ok = many[0] == "error"
+                            else:
+                                ok = many[0] == "value" and many[1].get(g) == one[0][1] and many[1].get(f) == one[1][1]
+                            if not ok:
+                                viol.append({"key": "plural-call-differs-from-the-single-calls", "method": plural, "completion": mc, "passed": how,
+                                             "assignment": {str(k): str(v) for k, v in asg.items()}, "formulae": [str(g), str(f)],
+                                             "single_calls": str(one), "plural_call": str(many)})
+                                break
+                        if viol:
+                            break
+                    if viol:
+                        break
+                if viol:
+                    break
+            if viol:
+                break
+        if viol:
+            break
+    return {"name": "plural_model", "bounded": True, "evaluations": n, "distinct_nontrivial": n,
+            "rule": "4 assignments (empty, partial, total) x 9 x 3 formulae x completion on/off x get_values / get_py_values, flag by keyword and by position",
+            "samples": ["EagerModel({px: 5}).get_values([px, (px + py)], model_completion=False)"], "violations": viol}
+
+
+CHECKS["plural_model"] = plural_model_check
